@@ -37,20 +37,20 @@ Step(ev) ==
   CASE ev.a = "copy"     -> Copy(g.h, g.from)
     [] ev.a = "release"  -> Release(g.h)
     [] ev.a = "final"    -> Final
-    [] ev.a = "rinsert"  -> RInsert(g.h, g.pos, g.o)
+    [] ev.a = "rinsert"  -> RInsert(g.h, g.pos, g.o, g.f)
     [] ev.a = "rset"     -> RSet(g.h, g.pos, g.o)
     [] ev.a = "rclear"   -> RClear(g.h, g.o)
     [] ev.a = "rcompact" -> RCompact(g.h)
     [] ev.a = "count"    -> XCount(g.h)
-    [] ev.a = "iappend"  -> IAppend(g.h, g.o, g.n)
-    [] ev.a = "iinsert"  -> IInsert(g.h, g.pos)
-    [] ev.a = "iset"     -> ISet(g.h, g.pos, g.o, g.n)
+    [] ev.a = "iappend"  -> IAppend(g.h, g.o, g.n, g.f)
+    [] ev.a = "iinsert"  -> IInsert(g.h, g.pos, g.f)
+    [] ev.a = "iset"     -> ISet(g.h, g.pos, g.o, g.n, g.f)
     [] ev.a = "ielem"    -> IElem(g.h, g.pos, g.o)
     [] ev.a = "icompact" -> ICompact(g.h)
     [] ev.a = "ctor"     -> UCtor(g.h, g.len)
-    [] ev.a = "resize"   -> UResize(g.h, g.len)
+    [] ev.a = "resize"   -> UResize(g.h, g.len, g.f)
     [] ev.a = "reserve"  -> UReserve(g.h, g.len)
-    [] ev.a \in {"gappend", "gadd"} -> GAppend(ev.a, g.h, g.o, g.n)
+    [] ev.a \in {"gappend", "gadd"} -> GAppend(ev.a, g.h, g.o, g.n, g.f)
     [] ev.a = "gclear"   -> GClear(g.h, g.o)
     [] ev.a = "cfgset"   -> CfgSet(g.h, g.p, g.q, g.o)
     [] ev.a = "cfgq"     -> CfgQuery(g.h, g.p, g.q)
